@@ -172,6 +172,7 @@ func (g *VCGen) run() {
 		}
 	}
 	g.initDeferFlags()
+	g.initHeldFlags()
 	// vacuity guard: precondition satisfiable
 	g.obls = append(g.obls, Obligation{Name: "vacuity.requires", Kind: "cover", Guard: "true", Goal: "false", NAssert: len(g.asserts),
 		Pos: fn.Prog.Fset.Position(fn.Pos()), Text: "precondition is satisfiable (must be sat)", Func: fn.String()})
@@ -875,6 +876,7 @@ func (g *VCGen) instr(in ssa.Instruction) {
 	case *ssa.BinOp:
 		g.binop(x)
 	case *ssa.Store:
+		g.checkProtected(x.Addr, true, x.Pos())
 		g.storeInstr(x)
 	case *ssa.Call:
 		g.callInstr(x, x)
@@ -1069,6 +1071,7 @@ func (g *VCGen) indexInstr(x *ssa.Index) {
 func (g *VCGen) unop(x *ssa.UnOp) {
 	switch x.Op {
 	case token.MUL: // load
+		g.checkProtected(x.X, false, x.Pos())
 		if t, ok := g.forwardedLoad(x.X, x.Block(), x); ok {
 			sv := g.define(x, t)
 			g.assumeHere(g.allocFact(sv.T, x.Type(), g.cur))
